@@ -346,7 +346,7 @@ impl<'a> SrcGen<'a> {
         format!("{}:{}:{}:{}", a, b, half(self.rng, x0 + w + 1), half(self.rng, y0 + h + 1))
     }
     fn rot(&mut self) -> String {
-        (*self.rng.pick(&[0i64, 90, 180, 270, -90, -180, -270, -360, -450, 360, 450, 540, 630, 720, 810])).to_string()
+        (*self.rng.pick(&[0i64, 90, 180, 270, -90, -180, -270, -360, -450, 360, 450, 540, 630, 720, 810, 2147483610, -2147483610])).to_string()
     }
     fn keys(&mut self) -> String {
         let pool = ["ProcSet", "ExtGState", "ColorSpace", "Pattern", "Shading", "Properties"];
